@@ -5,7 +5,12 @@ spec/Codegen.tla (contract: Gen, Meets, Verdict, Observe), CodegenMC.tla (every 
 directory, fresh or holding the output of another input: other arguments, a shorter / a longer document),
 CodegenTrace.tla (recorded runs on larger random documents, in fresh directories and one after the other in
 one directory); harness/cmd/codegen (runs the generator binary built from $VERIF_REPO/cmd/arcaflow-codegen as
-a subprocess in temporary directories).
+a subprocess in temporary directories).  Two blindness laws of Codegen.tla widen the input: the schema files
+carry the attributes of real schema descriptions (deco: min/max negative, zero, fractional; pattern, units,
+default, required, display, conflicts / required_if, examples) of which the expectation is no function
+(AttributeBlind), and the generator is also invoked as a copy at another path, by a relative path and the
+documented way, "go run gen.go schema_input.yaml [ARG]" in a copy of the source directory (route), of which
+the observation must be no function (InvocationBlind).
 """
 import os, json, re, shutil, subprocess, glob
 from vlib import common
@@ -35,12 +40,22 @@ def build_generator(ctx):
         if f.endswith("_test.go") or not os.path.isfile(f):
             continue
         shutil.copy(f, dst)
-    out = os.path.join(ctx.tmp, "arcaflow-codegen")
+    # the binary is called what "go run gen.go" calls its executable, so that a generator that names itself by
+    # the base name of argv[0] gives one output under every route
+    os.makedirs(os.path.join(ctx.tmp, "genbin"), exist_ok=True)
+    out = os.path.join(ctx.tmp, "genbin", "gen")
     p = subprocess.run(["go", "build", "-o", out, "."], cwd=dst, env=common.goenv(),
                        stdout=subprocess.PIPE, stderr=subprocess.STDOUT, text=True)
     if p.returncode != 0:
         raise common.Infra("go build of %s failed:\n%s" % (src, p.stdout[-3000:]))
+    # the documented invocation compiles gen.go as a package of its own: done once here, so that the parallel
+    # "go run gen.go ..." of the driver find it in the build cache (and a failure is Infra, not an observation)
+    p = subprocess.run(["go", "build", "-o", os.devnull, "gen.go"], cwd=dst, env=common.goenv(),
+                       stdout=subprocess.PIPE, stderr=subprocess.STDOUT, text=True)
+    if p.returncode != 0:
+        raise common.Infra("go build gen.go in a copy of %s failed:\n%s" % (src, p.stdout[-3000:]))
     ctx._c19_gen = out
+    ctx._c19_gensrc = dst
     return out
 
 
@@ -52,8 +67,8 @@ def run_cases(ctx, cases, tag):
     inp = os.path.join(ctx.tmp, "cases-%s.ndjson" % tag)
     out = os.path.join(ctx.tmp, "res-%s.ndjson" % tag)
     common.write_ndjson(inp, cases)
-    ctx.run([drv, "-in", inp, "-out", out, "-j", str(min(12, common.NCPU)), "-gen", gen, "-work", work,
-             "-case-timeout", "240s"], timeout=1500)
+    ctx.run([drv, "-in", inp, "-out", out, "-j", str(min(12, common.NCPU)), "-gen", gen, "-gensrc", ctx._c19_gensrc,
+             "-work", work, "-case-timeout", "240s"], timeout=1500)
     results = common.read_ndjson(out)
     if len(results) != len(cases):
         raise common.Infra("driver returned %d results for %d cases" % (len(results), len(cases)))
@@ -84,6 +99,11 @@ def consume(ctx, cases, results, stats):
         stats["over_skipped"] += r.get("over_skipped", 0)
         for k, n_ in (r.get("over") or {}).items():
             stats["over"][k] = stats["over"].get(k, 0) + n_
+        for what in ("attrs", "routes"):
+            for k, n_ in (r.get(what) or {}).items():
+                stats[what][k] = stats[what].get(k, 0) + n_
+        if r.get("hash") and case.get("doc") is not None:
+            stats["hashes"].setdefault(json.dumps([case["doc"], case["args"]], sort_keys=True), {})[case.get("deco", "bare")] = r["hash"]
         if r.get("typeids"):
             stats["sdk_typeids"] = r["typeids"]
         for k in r.get("keys", []):
@@ -145,14 +165,17 @@ def validate_trace(ctx, trace, tag):
                 continue
             rejected += 1
             case = dict(op="doc", doc=line["doc"], args=line["args"], style=line.get("style", "block"),
-                        runs=max(5, line.get("runs", 5)))
+                        deco=line.get("deco", "bare"), runs=max(5, line.get("runs", 5)))
             # a finding about the used directory: a run over the output file of an earlier run rejected
             # although the run of the same input in a fresh directory is accepted
             used = line.get("rel", "fresh") != "fresh" and fresh_verdict.get(line["inp"]) == "ok"
             if used and line.get("prev"):
                 case = dict(op="seq", prev=line["prev"], doc=line["doc"], args=line["args"],
-                            style=line.get("style", "block"))
+                            style=line.get("style", "block"), deco=line.get("deco", "bare"))
             details = [line["rel"]] if used else (v.get("details") or [""])
+            routed = line.get("route", "binary") != "binary" and v["verdict"] == "nondeterministic_bytes"
+            if routed:      # the same input under another invocation route gave other bytes
+                case = dict(case, route=line["route"])
             if v["verdict"] == "wrong_field_type" and v.get("carried") and not used:
                 details = [d + "+id" for d in details]
             for d in details:
@@ -160,6 +183,8 @@ def validate_trace(ctx, trace, tag):
                            args=v["form"], shape=v["shape"], detail=d)
                 if used:
                     sig["schema"] = line.get("schema", "untouched")   # (a rerun in place leaves it untouched)
+                if routed:
+                    sig["route"] = line["route"]
                 ctx.violation(sig,
                               dict(case=case, trace_line=line, statement=STATEMENT,
                                    note="CodegenTrace rejects this recorded run: " + v["verdict"]))
@@ -177,7 +202,7 @@ def note_drift(ctx, stats, what, sample):
 
 def new_stats():
     return dict(inputs=0, lenient=0, ref_raw=0, ref_titled=0, max_variants=0, sdk_typeids=None,
-                reruns=0, over_skipped=0, over={})
+                reruns=0, over_skipped=0, over={}, attrs={}, routes={}, hashes={})
 
 
 def run(ctx):
@@ -187,14 +212,18 @@ def run(ctx):
                 "properties' types taken from a cyclic sequence of all 15 type IDs - each non-reference type ID "
                 "without and with an id of its own (inline object carrying its ID) - and references to each object / "
                 "to an undeclared object started at every offset in Rots; argument form: none, ignore each object, "
-                "ignore an absent name); each input is run %d times in a private directory (even runs: output file "
+                "ignore an absent name; one attribute decoration per input going round the four, all four for the "
+                "documents of SeqSchemes x SeqRots without argument; the fullest document of each size also under "
+                "the routes binary_copy, binary_relative, go_run, two runs each against the pre-built binary's); "
+                "each input is run %d times in a private directory (even runs: output file "
                 "removed first; odd runs: over the output of the run before); every Prepare successor is the same "
                 "input in a directory that holds the output of another input (each other argument form of the "
                 "document; the document without its last object / with one more object): earlier run, then the "
                 "input in the same directory (the schema file written once and older than the output when only the "
                 "arguments differ, replaced and newer when the document does), compared with exp and with the bytes "
                 "of a fresh directory; plus seeded "
-                "random documents (<= 8 objects x <= 8 properties, arbitrary identifiers, three YAML styles) x 3 "
+                "random documents (<= 8 objects x <= 8 properties, arbitrary identifiers, three YAML styles, a random "
+                "decoration; the first of each case also under the other routes) x 3 "
                 "argument forms in fresh directories and once more one after the other (and with the document cut "
                 "by an object) in one directory; distinct = distinct (type assignment of the document, argument "
                 "form, which object is ignored, [what the directory held, its length against the output,] outcome "
@@ -212,14 +241,20 @@ def run(ctx):
     ninit = int(m.group(m.lastindex))
     # one vector per state before the first run: the initial states (fresh directory) and their Prepare
     # successors (the directory holds the output of prev)
-    plain = [v for v in vectors if v["prev"]["args"]["form"] == "fresh"]
+    routed = [v for v in vectors if v["route"] != "binary"]
+    plain = [v for v in vectors if v["prev"]["args"]["form"] == "fresh" and v["route"] == "binary"]
     used_dir = [v for v in vectors if v["prev"]["args"]["form"] != "fresh"]
+    if len(plain) + len(used_dir) + len(routed) != len(vectors):
+        raise common.Infra("a vector both of a used directory and of another invocation route")
     if len(plain) != ninit:
         raise common.Infra("TLC has %d initial states but exported %d vectors of a fresh directory" % (ninit, len(plain)))
     inputs = {json.dumps([v["doc"], v["args"]], sort_keys=True) for v in plain}
-    for v in used_dir:
+    for v in used_dir + routed:
         if json.dumps([v["doc"], v["args"]], sort_keys=True) not in inputs:
-            raise common.Infra("a vector of a used directory has no vector of the same input in a fresh directory")
+            raise common.Infra("a vector of a used directory / another route has no vector of the same input in a "
+                               "fresh directory by the pre-built binary")
+    if not routed:
+        raise common.Infra("CodegenMC exported no vector of another invocation route")
     if not used_dir:
         raise common.Infra("CodegenMC exported no vector of a used directory (SeqSchemes / SeqRots empty?)")
     for v in vectors:
@@ -244,10 +279,34 @@ def run(ctx):
     for rel in ("over_longer_output", "over_shorter_output", "schema_untouched", "schema_replaced"):
         if not stats["over"].get(rel):
             raise common.Infra("no run %s among the vectors of a used directory: %s" % (rel, stats["over"]))
-    if sum(1 for v in used_dir if v["schema"] == "untouched") != stats["over"]["schema_untouched"]:
+    # (runs not judged - the earlier or the fresh run failed, reported by that input's own vector - are not counted)
+    if stats["over_skipped"] == 0 and \
+            sum(1 for v in used_dir if v["schema"] == "untouched") != stats["over"]["schema_untouched"]:
         raise common.Infra("vectors with an untouched schema file: specification %d, driver %d"
                            % (sum(1 for v in used_dir if v["schema"] == "untouched"), stats["over"]["schema_untouched"]))
+    # vacuity of the two blindness laws: every decoration and every route ran, the attributes that matter were
+    # written (negative / zero / fractional limits, units, multi-line display, defaults, relations), and the same
+    # document ran under every decoration
+    for d in ("bare", "limits", "attributes", "full"):
+        if not stats["attrs"].get("deco_" + d):
+            raise common.Infra("no vector rendered with the decoration %s: %s" % (d, stats["attrs"]))
+    for a in ("integer_min_negative", "integer_max_negative", "integer_limits_zero", "float_min_negative_fraction",
+              "float_limits_zero_fraction", "string_size_pattern", "list_size", "map_size", "units",
+              "display_multiline", "default_negative", "relations"):
+        if not stats["attrs"].get(a):
+            raise common.Infra("no vector carries the attribute kind %s: %s" % (a, stats["attrs"]))
+    for rt in ("binary_copy", "binary_relative", "go_run"):
+        if not stats["routes"].get(rt):
+            raise common.Infra("no run under the invocation route %s: %s" % (rt, stats["routes"]))
+    all_decos = [h for h in stats["hashes"].values() if len(h) == 4]
+    if not all_decos:
+        raise common.Infra("no input ran under all four decorations")
+    n_attr_bytes = sum(1 for h in all_decos if len(set(h.values())) > 1)
+    if n_attr_bytes:    # not excluded by the statement (a comment made from an attribute): drift
+        note_drift(ctx, stats, "attributes_in_output", dict(inputs=n_attr_bytes, of=len(all_decos)))
+    attrs_vec, routes_vec = dict(stats["attrs"]), dict(stats["routes"])
     over_vec = dict(stats["over"])
+    ctx.log("vectors: %d under another route %s; decorations and attribute kinds %s" % (len(routed), routes_vec, attrs_vec))
     ctx.log("vectors: %d inputs in a fresh directory, %d in a used directory %s (%d not judged), %d generator runs so far"
             % (len(plain), len(used_dir), over_vec, stats["over_skipped"], ctx.evaluations))
 
@@ -276,6 +335,12 @@ def run(ctx):
                                                    random={k: n_ - over_vec.get(k, 0) for k, n_ in stats["over"].items()},
                                                    not_judged=stats["over_skipped"]),
         type_ids_with_an_id_of_their_own=with_id,
+        attribute_blind=dict(inputs_by_decoration_and_attribute_kinds_written=dict(vectors=attrs_vec,
+                                 random={k: n_ - attrs_vec.get(k, 0) for k, n_ in stats["attrs"].items()}),
+                             inputs_run_under_all_decorations=len(all_decos),
+                             of_which_bytes_differ_between_decorations=n_attr_bytes),
+        invocation_blind=dict(vectors=len(routed), runs_by_route=dict(vectors=routes_vec,
+                                 random={k: n_ - routes_vec.get(k, 0) for k, n_ in stats["routes"].items()})),
         instruments="exit status / stderr of the subprocess, go/parser + go/format (gofmt validity, struct "
                     "extraction), SHA-256 over typedef_output.go; the TLA+ part is an oracle and a history "
                     "machine, not a protocol model",
@@ -300,6 +365,13 @@ def run(ctx):
         "set by the harness to the true order of events: schema written, then output generated)",
         "a type other than ref that carries an id (type_id: object, id: Inner) is not a reference: its field is "
         "typed by the type ID",
+        "AttributeBlind: the attributes a schema file carries besides object names, property names, type IDs and ids "
+        "(min/max, pattern, units, default, required, display, relations, examples) change neither that the "
+        "generator finishes nor the structs demanded; a failure of a decorated file whose bare rendering runs clean "
+        "carries the decoration in its signature; bytes that differ between decorations are drift",
+        "InvocationBlind: argv[0] is no part of the input: the pre-built binary (named gen, as under go run), a copy "
+        "of it in another directory, a relative path to it and 'go run gen.go schema_input.yaml [ARG]' in a copy of "
+        "the source directory must give the same bytes for the same schema file and arguments",
     ]
 
 
